@@ -220,7 +220,11 @@ fn oracle_random(case: &[u8], obs: &mut Obs) -> Result<(), String> {
             }
         }
     }
-    check(spec, kind, &buf, off, obs)
+    // the buffer at an arbitrary address residue
+    let lead = c.below(9) as usize;
+    let mut b2 = vec![0x5au8; lead];
+    b2.extend_from_slice(&buf);
+    check(spec, kind, &b2[lead..], off, obs)
 }
 
 pub fn property() -> Property {
